@@ -57,7 +57,9 @@ def mk_precond_cadence(interval_kind):
                                   end_preconditioning_compute_steps=spec.fresh_int("end_preconditioning_compute_steps", lo=1))
     else:
       interval = spec.fresh_int("preconditioning_compute_steps", lo=2) if interval_kind == "sym" else 1
-      opt = m.distributed_shampoo(0.1, block_size=8, preconditioning_compute_steps=interval, inverse_failure_threshold=tau)
+      # the statistics interval is arbitrary: the preconditioner cadence must not depend on it
+      opt = m.distributed_shampoo(0.1, block_size=8, preconditioning_compute_steps=interval, inverse_failure_threshold=tau,
+                                  statistics_compute_steps=spec.fresh_int("statistics_compute_steps", lo=1))
     env = opt.update.env.vars
     c13.GEN["metrics_cls"] = m.TrainingMetrics
     sz = spec.fresh_int("size", lo=1)
